@@ -239,6 +239,8 @@ def r3(ctx):
                           r"result-state:\w+@calinski", r"result-state:\w+@markov"))
     # nothing refits or relabels after the relabel of a round (the scored means/MRFs are the ones the cost was computed with)
     c09.lifecycle(ctx, {"nothing-after-relabel"})
+    from . import c13
+    ctx.sub(c13.r2, only=("setter:only-labels",))      # assigning the new labels does not wipe the cost that was just computed for them
 
 
 @rule("C06", "R4", "AGREE", "the multi-series result copies every aggregate field from the master result under the same name", floor=10)
